@@ -29,13 +29,14 @@ def main():
         props = a.props.split(',') if a.props else [meta['property']]
         head = sh(['git', '-C', '/repo', 'rev-parse', 'HEAD']).stdout.strip()
         sh(['git', '-C', wt, 'checkout', '-q', '--detach', head])
-        sh(['git', '-C', wt, 'checkout', '--', '.'])
+        sh(['git', '-C', wt, 'reset', '-q', '--hard', head])
         patch = os.path.abspath(os.path.join(sd, 'patch.diff'))
         r = sh(['git', '-C', wt, 'apply', patch])
         if r.returncode:
             r = sh(['git', '-C', wt, 'apply', '--3way', patch])
         if r.returncode:
             print('%s: PATCH DOES NOT APPLY at %s: %s' % (sd, head[:7], r.stderr.strip()[:300]))
+            sh(['git', '-C', wt, 'reset', '-q', '--hard', head])
             continue
         for p in props:
             t = time.time()
@@ -44,11 +45,11 @@ def main():
             verdict = 'CAUGHT' if r.returncode == 1 and any(l.startswith('VIOLATION') for l in vio) else ('MISSED' if r.returncode == 0 else 'ERROR rc=%d' % r.returncode)
             print('%s %s: %s (%.0fs) %s' % (os.path.basename(sd.rstrip('/')), p, verdict, time.time() - t, vio[0][:200] if vio else ''))
             if verdict.startswith('ERROR'):
-                print(r.stdout[-1500:], r.stderr[-500:])
+                print(r.stdout[-600:], r.stderr[-200:])
             with open(os.path.join(ROOT, 'seeded', 'results.jsonl'), 'a') as f:
                 f.write(json.dumps({'seed': os.path.basename(sd.rstrip('/')), 'property': p, 'verdict': verdict, 'tier': a.tier,
                                     'repo_head': head[:7], 'line': vio[0] if vio else '', 'at': time.strftime('%Y-%m-%dT%H:%M:%SZ', time.gmtime())}) + '\n')
-        sh(['git', '-C', wt, 'checkout', '--', '.'])
+        sh(['git', '-C', wt, 'reset', '-q', '--hard', head])
 
 
 main()
